@@ -38,7 +38,7 @@ def errname(ex):
 class XPolicy(fakenet.Policy):
     """asks the explorer; `settle` switches to default answers (healthy environment)"""
 
-    def __init__(self, ch, partial=True, faults=(), tlsfaults=False, wants=True, connect_alts=True, only=None):
+    def __init__(self, ch, partial=True, faults=(), tlsfaults=False, wants=True, connect_alts=True, only=None, pending_once=False):
         self.ch = ch
         self.partial = partial
         self.faults = list(faults)
@@ -46,6 +46,7 @@ class XPolicy(fakenet.Policy):
         self.wants = wants
         self.connect_alts = connect_alts
         self.settle = False
+        self.pending_once = pending_once    # the first handshake call of a watched socket may (at no cost) leave the handshake pending
         self.only = only      # restrict fault injection to sockets whose .owner is in this set
         self.injected = []
 
@@ -101,6 +102,11 @@ class XPolicy(fakenet.Policy):
     def handshake(self, sock):
         if self.settle:
             return "ok"
+        if (self.pending_once and not getattr(sock, "_vf_pended", False)
+                and (self.only is None or getattr(sock, "owner", None) in self.only)):
+            sock._vf_pended = True      # a free choice: faults and peer events can then land while the handshake is pending
+            if self.ch.choose(2, "handshake-pending:" + self._tag(sock), cost=0):
+                return "want_read"
         alts = ["ok"]
         if self.wants:
             alts += ["want_read", "want_write"]
